@@ -33,7 +33,7 @@ PROPERTIES = {
         assumptions=["acceptance/refusal of concrete values by the emitted annotations is pydantic's (assumed contract)"],
     ),
     "C05": dict(
-        modules=["contracts.c05_result_fields", "contracts.c01_results", "contracts.c04_modules"],
+        modules=["contracts.c05_result_fields", "contracts.c01_results", "contracts.c04_modules", "contracts.c01_inline"],
         bounded=[_bounded.lazy("contracts.e2e_results", "bounded_results")],
         explanation="result field type translator against the image spec by structural induction (non-abstract positions), "
                     "directive handling, typename literal",
@@ -91,7 +91,7 @@ PROPERTIES = {
         assumptions=["isort/black determinism; equality across two processes beyond order-independence is outside one call's contract"],
     ),
     "C08": dict(
-        modules=["contracts.c08_fragments", "contracts.c10_order"],
+        modules=["contracts.c08_fragments", "contracts.c10_order", "contracts.c01_inline"],
         bounded=[_bounded.lazy("contracts.c08_fragments", "bounded_fragment_order"), _bounded.lazy("contracts.e2e_fragments", "bounded_scenarios")],
         explanation="@mixin argument parsing and base/import bookkeeping under contract; fragment class ordering by exhaustive bounded stand-in",
         assumptions=["that a class listed as base validates the same payload is pydantic's inheritance (assumed)"],
@@ -136,7 +136,7 @@ PROPERTIES = {
         assumptions=["embedding of the text in Python source (splitlines, ast.unparse, regex rewrite, isort, black) is outside the solvers' fragment: bounded stand-in only"],
     ),
     "C01": dict(
-        modules=["contracts.c01_results", "contracts.c05_result_fields", "contracts.c04_modules"],
+        modules=["contracts.c01_results", "contracts.c05_result_fields", "contracts.c04_modules", "contracts.c01_inline"],
         bounded=[_bounded.lazy("contracts.e2e_results", "bounded_results")],
         explanation="union / non-abstract translators and field implementation under contract; acceptance, typed instances and round trip by the reference-executor stand-in",
         assumptions=["pydantic validates the emitted annotation forms as their names say (assumed; exercised by the stand-in)"],
